@@ -4,6 +4,7 @@
 package packfile
 
 import (
+	"bytes"
 	"encoding/binary"
 	"encoding/hex"
 	"errors"
@@ -176,19 +177,19 @@ func (r *PackfileReader) ReadObject() (objType int, b []byte, err error) {
 	if err != nil {
 		return
 	}
-	var read uint64 = 0
-	b = make([]byte, int(u))
-	for read < u {
-		n, err := r.r.Read(b[read:])
-		if err != nil && err != io.EOF {
-			return 0, nil, err
-		}
-		read += uint64(n)
-		if errors.Is(err, io.EOF) && read < u {
-			return 0, nil, io.ErrUnexpectedEOF
-		}
+	if u > math.MaxInt32 {
+		return 0, nil, fmt.Errorf("object size %d is too large", u)
 	}
-	return
+	// the declared length is not trusted to size the buffer: it grows with the bytes actually read
+	body := bytes.NewBuffer(nil)
+	n, err := io.CopyN(body, r.r, int64(u))
+	if err != nil && err != io.EOF {
+		return 0, nil, err
+	}
+	if uint64(n) < u {
+		return 0, nil, io.ErrUnexpectedEOF
+	}
+	return objType, body.Bytes(), nil
 }
 
 func (r *PackfileReader) Close() error {
